@@ -5,7 +5,9 @@ PROP = "C05"
 LEVEL = "exploration"
 COMPONENTS = {"real": base.COMPONENTS_SYS["real"], "stub": base.COMPONENTS_EX["stub"]}
 RULE_TEXT = base.RULE_EX + " || sysmodel family: " + base.RULE_SYS + ", with the exact model in lock-step inside run_simulator"
-claims = base.prefix_claims(*"C05.,EX.states,EX.results,EX.lists.active,EX.crash".split(","))
+# (a container killed although it stayed within its allocation and the pool fits is also a container that did not
+# "succeed after exactly the summed tick count": C04.kill_unjustified is claimed here too)
+claims = base.prefix_claims(*"C05.,EX.states,EX.results,EX.lists.active,EX.crash,C04.kill_unjustified".split(","))
 execute = base.dispatch_execute
 prepare_replay = base.dispatch_prepare
 sample = base.dispatch_sample
@@ -14,6 +16,9 @@ sample = base.dispatch_sample
 def make(family, rng, tier):
     if family == "ex":
         return exgen.gen(rng, PROP, tier)
+    if family == "crowd":
+        # the same clauses with neighbours in the pool: what one container does must not change another's outcome
+        return exgen.gen(rng, "C04", tier)
     if family == "solo":
         from .. import exdrv
         return exdrv.gen_solo_reuse(rng)
@@ -24,4 +29,5 @@ def make(family, rng, tier):
 
 def plan(tier):
     q = tier == "quick"
-    return [("ex", 5000 if q else 80000), ("sysmodel", 1500 if q else 30000), ("solo", 1500 if q else 30000)]
+    return [("ex", 5000 if q else 80000), ("sysmodel", 1500 if q else 30000), ("solo", 1500 if q else 30000),
+            ("crowd", 1500 if q else 30000)]
